@@ -107,7 +107,7 @@ structure Script where
 /-- outcome: per-recipient reports (in emission order), the final report, what the server received.
     `wireOpen`: `wire` may be followed by a prefix of the encoded body (buffer-full flushes of `smtpto`
     before the run stopped; the 1024-byte buffering is not modelled).
-    `quit`: `quit()` was reached and its QUIT was written. -/
+    `quit`: `quit()` was reached (a verdict was announced; QUIT was written unless that write failed). -/
 structure Res where
   rcpt : List Bytes
   msg : Bytes
@@ -128,12 +128,13 @@ def tempNoconnRep : Bytes := lit "ZSorry, I wasn't able to establish an SMTP con
 
 def notLike : Bytes := lit " does not like recipient.\n"
 
-/-- `quit(prepend,append)`: the QUIT write goes through `safewrite` like every other write, so when it
-    fails `dropped()` runs and the verdict `prepend … append` that had been decided is never printed
-    (open finding C09-quit-write-failure, notes/C09.md; `Props.C09.C09_quit_corner`) -/
+/-- `quit(prepend,append)`: QUIT is written with `timeoutwrite` directly, *not* through `safewrite`
+    (commit 7dc98ec): when that write fails the server just does not get the QUIT; the verdict
+    `prepend … append` that had been decided is printed all the same. (Before 7dc98ec a failing QUIT
+    write ran `dropped()` and replaced the verdict by "connection died": mutant M22 in notes/C09.md.) -/
 def quitWith (a : Args) (wf : Option WPoint) (rs : List Bytes) (w : Bytes) (pre app txt : Bytes) : Res :=
-  if wf = some .quit then { rcpt := rs, msg := droppedRep a.host false, wire := w }
-  else { rcpt := rs, msg := pre ++ a.host ++ app ++ lit ".\n" ++ said txt, wire := w ++ lit "QUIT\r\n", quit := true }
+  { rcpt := rs, msg := pre ++ a.host ++ app ++ lit ".\n" ++ said txt,
+    wire := if wf = some .quit then w else w ++ lit "QUIT\r\n", quit := true }
 
 def lost (a : Args) (rs : List Bytes) (w : Bytes) (crit : Bool) (wopen : Bool := false) : Res :=
   { rcpt := rs, msg := droppedRep a.host crit, wire := w, wireOpen := wopen }
